@@ -1375,11 +1375,15 @@ class Analyzer:
                 self.cast_log.append((self.cur_line, st.val_iv(a) if a[0] in ("n", "iv") else None, rv["from"], rv["ty"], rv["a"]))
             if rv["ck"].startswith("coerce") or rv["ck"] in ("ptr2ptr",):
                 # unsizing &[T; N] -> &[T] keeps the pointee place; the slice's length is the array length of the source type
-                if a[0] == "ref" and a[1] is not None and not isinstance(a[1], str) and rv.get("from") is not None:
+                if rv.get("from") is not None and rv["ck"].startswith("coerce:Unsize"):
                     pt = self.pointee(rv["from"])
                     if pt is not None and self.T[pt]["k"] == "array" and self.T[pt].get("len") is not None:
                         n = self.T[pt]["len"]
-                        st.set_iv(("len", a[1], a[2]), n, n)
+                        if a[0] == "ref" and a[1] is not None and not isinstance(a[1], str):
+                            st.set_iv(("len", a[1], a[2]), n, n)
+                        elif a[0] in ("ref", "top") or a == TOP:
+                            # a reference of unknown origin to an array: remember the length in a pseudo root
+                            return ("ref", "arr:%d" % n, ()), rv["ty"]
                 return a, rv["ty"]
             return self.cast(st, a, rv["from"], rv["ty"], rv["ck"]), rv["ty"]
         if k in ("ref", "rawptr"):
